@@ -73,6 +73,19 @@ pub fn s_new_sub(a: f64, b: f64) -> TwoFloat {
     r
 }
 
+// ---------------------------------------------------------------------- fma
+/// Corrected model of the fused multiply-add.  CBMC 6.11's `fma` is wrong when one factor is an
+/// exact zero and the other has a large exponent (found by a refuted obligation that replayed as
+/// correct natively: fma(0.0, 0x1.000000000003fp+65, 0x1.0000000000002p-1015) returns ...08p-1015;
+/// reproduced standalone, see DESIGN section 8).  For a zero factor the fused result is by
+/// definition RN(+-0 + z) = (x * y) + z, which CBMC computes correctly; everywhere else CBMC's
+/// single-rounding fma is used (240 seeded triples incl. subnormal / overflow agree with the
+/// hardware: obligation `c04::fma_model_agreement`).  Installed over the crate's private `fma`
+/// in every obligation that reasons about values through it.
+pub fn fma_fixed(x: f64, y: f64, z: f64) -> f64 {
+    if x == 0.0 || y == 0.0 { x * y + z } else { f64::mul_add(x, y, z) }
+}
+
 // ------------------------------------------------------------------ new_mul
 pub fn pre_new_mul(a: f64, b: f64) -> bool { a.is_finite() && b.is_finite() }
 /// product 0 or in [2^-960, 2^1023): the domain in which C01/C02 claim validity
